@@ -11,7 +11,7 @@ pub fn def() -> PropertyDef {
     PropertyDef {
         id: "C10",
         level: "exploration",
-        scenarios: vec![Box::new(ProgressStub), Box::new(WorkerRxDrop)],
+        scenarios: vec![Box::new(ProgressStub), Box::new(WorkerRxDrop), Box::new(ProgressReal)],
         assumptions: vec![
             "simulated time is one global clock advanced by per-call costs and sleeps (any monotone clock is a legal clock)",
             "indicatif draws to a hidden target; its internal real clock does not feed back into control flow",
@@ -315,5 +315,126 @@ impl Scenario for WorkerRxDrop {
     }
     fn components(&self) -> Value {
         json!({"real": ["run_chain_progress", "ChainTracker"], "stub": ["listener thread (drops the receiver)", "counting chain", "simulated threads/channel/clock"]})
+    }
+}
+
+// ---------------------------------------------------------------------------------------------
+// scenario 3: real samplers, element types x backends: run_progress == run, diagnostics, no panic
+// ---------------------------------------------------------------------------------------------
+struct ProgressReal;
+
+const REAL_KINDS: &[&str] = &[
+    "mh_gauss", "mh_gauss_f32", "mh_table", "gibbs_det", "hmc_f32", "hmc_f64", "hmc_rosen_f32", "nuts_f32", "nuts_f64", "nuts_rosen_f64",
+    "hmc_t64_b32", "hmc_t32_b64", "nuts_t64_b32", "nuts_t32_b64",
+];
+
+impl Scenario for ProgressReal {
+    fn name(&self) -> &'static str {
+        "progress_real"
+    }
+    fn runs(&self, tier: Tier) -> u64 {
+        tier.pick(420, 20_000)
+    }
+    fn generate(&self, g: &mut Gen, _tier: Tier, idx: u64) -> Value {
+        use crate::props::c07::gen_spec;
+        // every kind is visited in turn (backend matrix), the rest is random
+        let kind = REAL_KINDS[(idx % REAL_KINDS.len() as u64) as usize];
+        let mut spec = gen_spec(g, &[kind]);
+        let heavy = kind.starts_with("hmc") || kind.starts_with("nuts");
+        if heavy && g.bool(1, 6) {
+            spec = with(&spec, "n_chains", json!(g.usize(6, 9))); // more chains than bars (NUTS' copy of the protocol)
+        }
+        spec = with(&spec, "n_collect", json!(pu(&spec, "n_collect").max(4)));
+        spec = with(&spec, "seed", json!(g.range(0, 1u64 << 40).to_string()));
+        let nc = pus(&spec, "n_chains");
+        json!({"spec": spec, "sim": gen_sim(g, nc + 2, true)})
+    }
+    fn execute(&self, params: &Value, want_sample: bool) -> Outcome {
+        use crate::props::c07::{kind_family, solo, spec_of};
+        use crate::zoo::*;
+        let mut o = Outcome::default();
+        let spec = spec_of(&params["spec"]);
+        let fam = kind_family(&spec.kind);
+        let site = format!("{fam}::run_progress[{}]", spec.kind);
+        let mut rspec = spec.clone();
+        if is_nuts(&spec.kind) {
+            rspec.n_collect += 1;
+        }
+        let want = match solo(&rspec, Mode::Sequential) {
+            Ok(Ok(r)) => r,
+            Ok(Err(e)) => {
+                o.violate("run_err", &format!("{fam}::run[{}]:Err", spec.kind), e);
+                return o;
+            }
+            Err(m) => {
+                let loc = m.rsplit(" @ ").next().unwrap_or("").to_string();
+                o.violate("panic", &format!("{fam}::run[{}]:panic@{loc}", spec.kind), m);
+                return o;
+            }
+        };
+        o.work = (spec.n_chains * (spec.n_collect + spec.n_discard)) as u64 * 2;
+        let cfg = sim_cfg(&params["sim"]);
+        let sp = spec.clone();
+        let (rep, out) = run_sim(&cfg, move || run_spec(&sp, Mode::Progress).map(|r| (r.bits, r.shape, r.stats)));
+        o.sim_time_ns = rep.sim_time_ns;
+        o.hash = mix(mix(rep.sched_hash, rep.event_hash), str_hash(&params.to_string()));
+        o.nontrivial = rep.context_switches >= 2 || fam == "HMC";
+        o.absorb_counters(&rep.counters);
+        o.count(&format!("probe_kind_{}", spec.kind), 1);
+        o.count("probe_nuts_more_chains_than_bars", (fam == "NUTS" && spec.n_chains > 5) as u64);
+        if want_sample {
+            o.sample = Some(report_json(&rep));
+            o.schedule = Some(rep.schedule.clone());
+        }
+        if sim_failure_violation(&mut o, &rep, &site) {
+            return o;
+        }
+        match out {
+            None => o.harness_error = Some("no value".into()),
+            Some(Err(e)) => o.violate("run_err", &format!("{site}:Err"), e),
+            Some(Ok((bits, shape, stats))) => {
+                let dim = want.shape[2];
+                let expect: Vec<u64> = if is_nuts(&spec.kind) {
+                    let mut v = vec![];
+                    for c in 0..want.shape[0] {
+                        for k in 1..want.shape[1] {
+                            for j in 0..dim {
+                                v.push(want.bits[(c * want.shape[1] + k) * dim + j]);
+                            }
+                        }
+                    }
+                    v
+                } else {
+                    want.bits.clone()
+                };
+                if shape != [spec.n_chains, spec.n_collect, dim] || bits != expect {
+                    o.violate("progress_differs_from_run", &format!("{fam}:run_progress-differs-from-run"), format!("{} run_progress({}, {}) differs from run (shape {:?})", spec.kind, spec.n_collect, spec.n_discard, shape));
+                } else if let Some(st) = stats {
+                    let arr = Array3::from_shape_vec((shape[0], shape[1], shape[2]), bits.iter().map(|b| f64::from_bits(*b)).collect()).unwrap();
+                    let want_st = RunStats::from(arr.view());
+                    if !runstats_eq(&st, &want_st) {
+                        o.violate("diagnostics_differ", &format!("{fam}:run_progress-stats"), format!("{}: returned {st:?} but from the returned draws {want_st:?}", spec.kind));
+                    }
+                }
+                if fam != "HMC" {
+                    let after = rep.counters.get("sleeps_since_last_send").copied().unwrap_or(0);
+                    if after > spec.n_chains as u64 + 5 {
+                        o.violate("slow_exit", &format!("{fam}:run_progress-reporter-exit"), format!("reporter needed {after} polls after the last message ({} chains)", spec.n_chains));
+                    }
+                }
+            }
+        }
+        o
+    }
+    fn shrink(&self, p: &Value) -> Vec<Value> {
+        let mut out: Vec<Value> = crate::props::c07::shrink_spec(&p["spec"]).into_iter().filter(|s| pu(s, "n_collect") >= 4).map(|s| with(p, "spec", s)).collect();
+        shrink_sim(p, &mut out);
+        out
+    }
+    fn rule(&self) -> &'static str {
+        "real MH/Gibbs/HMC/NUTS samplers; the 14 (sampler, element type, backend) kinds are visited in turn by run index; run_progress on simulated threads/clock under a seeded schedule vs run() sequentially; non-trivial = >= 2 context switches (HMC: any); distinct = hash of (schedule, events, parameters)"
+    }
+    fn components(&self) -> Value {
+        json!({"real": ["ChainRunner::run_progress (MH, Gibbs)", "NUTS::run_progress / NUTSChain::run_progress", "HMC::run_progress", "MultiChainTracker", "RunStats", "burn NdArray<f32>/<f64> autodiff"], "stub": ["threads/channels/clock = simulator", "harness-written targets"]})
     }
 }
